@@ -12,6 +12,7 @@ import (
 	"github.com/samaritan-proxy/samaritan/host"
 	"pgregory.net/rapid"
 	"strings"
+	"sync"
 
 	"verif/harness/ref"
 	"verif/harness/sim"
@@ -45,7 +46,10 @@ func counter(svc, path string) uint64 { return statpurge.Counter(svc, path) }
 
 func gauge(svc, path string) uint64 { return statpurge.Gauge(svc, path) }
 
-type statInfo struct{ redirected, backendFailure, rejected, stopWithOpen, clientGone bool }
+type statInfo struct {
+	redirected, backendFailure, rejected, stopWithOpen, clientGone, massClose bool
+	midQuiescent                                                             int
+}
 
 func checkStats(c statCase) (inf statInfo, v *verdict) {
 	var svc, addr string
@@ -124,6 +128,60 @@ func checkStats(c statCase) (inf statInfo, v *verdict) {
 		}
 		return n
 	}
+	checkAll := func() string {
+		if x := gauge(svc, "downstream.cx_active"); x != 0 {
+			return fmt.Sprintf("downstream.cx_active = %d at quiescence", x)
+		}
+		if a, b := counter(svc, "downstream.cx_total"), counter(svc, "downstream.cx_destroy_total"); a != b {
+			return fmt.Sprintf("downstream.cx_total = %d but cx_destroy_total = %d", a, b)
+		}
+		if c.Kind == "tcp" {
+			if x := gauge(svc, "upstream.cx_active"); x != 0 {
+				return fmt.Sprintf("upstream.cx_active = %d at quiescence", x)
+			}
+			if a, b := counter(svc, "upstream.cx_total"), counter(svc, "upstream.cx_destroy_total"); a != b {
+				return fmt.Sprintf("upstream.cx_total = %d but cx_destroy_total = %d", a, b)
+			}
+		}
+		for _, side := range []string{"downstream", "upstream"} {
+			t, s, f := counter(svc, side+".rq_total"), counter(svc, side+".rq_success_total"), counter(svc, side+".rq_failure_total")
+			if t != s+f {
+				return fmt.Sprintf("%s.rq_total = %d but success %d + failure %d = %d", side, t, s, f, s+f)
+			}
+		}
+		if c.Kind == "redis" {
+			for _, cmd := range []string{"get", "set", "mget", "mset", "del", "incr", "ping", "lpush", "scan", "eval"} {
+				t, s, e := counter(svc, "redis."+cmd+".total"), counter(svc, "redis."+cmd+".success"), counter(svc, "redis."+cmd+".error")
+				if t != s+e {
+					return fmt.Sprintf("redis.%s.total = %d but success %d + error %d", cmd, t, s, e)
+				}
+			}
+		}
+		if got := counter(svc, "downstream.cx_restricted"); got < rejectedForSure || got > rejected {
+			return fmt.Sprintf("downstream.cx_restricted = %d but %d connections were opened while the limit was reached and %d in all were closed without service", got, rejectedForSure, rejected)
+		}
+		return ""
+	}
+	// waitQuiescent: no connection and no request is in flight; the equations must hold (the proxy notices the end of a
+	// connection asynchronously: 5 s)
+	waitQuiescent := func(where string) *verdict {
+		deadline := time.Now().Add(5 * time.Second)
+		for {
+			msg := checkAll()
+			if msg == "" {
+				return nil
+			}
+			if time.Now().After(deadline) {
+				sig := "stats-not-conserved"
+				if strings.Contains(msg, "cx_restricted") {
+					sig = "restricted-count-wrong"
+				}
+				return &verdict{sig, fmt.Sprintf("%s: 5s after the service became quiescent: %s", where, msg)}
+			}
+			time.Sleep(5 * time.Millisecond)
+		}
+	}
+	var kept []*sim.Client // mass connections that stay open until the end
 	for i, o := range c.Ops {
 		where := fmt.Sprintf("step %d (%s)", i, o.Op)
 		switch o.Op {
@@ -171,6 +229,59 @@ func checkStats(c statCase) (inf statInfo, v *verdict) {
 				continue
 			}
 			conns[o.Conn] = cc
+		case "mass":
+			// many connections at once: opened together, and either closed together right away (all of them at the same instant,
+			// FIN and RST mixed) or kept until the end of the history, where everything that is still open ends together
+			if c.Limit != 0 {
+				continue
+			}
+			m := 4 + o.N%45
+			got := make([]*sim.Client, m)
+			var mwg sync.WaitGroup
+			for k := 0; k < m; k++ {
+				mwg.Add(1)
+				go func(k int) {
+					defer mwg.Done()
+					cl, err := sim.Dial(addr)
+					if err != nil {
+						return
+					}
+					ok := false
+					if c.Kind == "redis" {
+						r, err := cl.Do(10*time.Second, "PING")
+						ok = err == nil && ref.Equal(r, ref.SimpleV("PONG"))
+					} else {
+						cl.C.Write([]byte("x"))
+						cl.C.SetReadDeadline(time.Now().Add(10 * time.Second))
+						b := make([]byte, 1)
+						n, _ := cl.C.Read(b)
+						ok = n == 1
+					}
+					if !ok {
+						cl.Close()
+						return
+					}
+					got[k] = cl
+				}(k)
+			}
+			mwg.Wait()
+			if o.N%2 == 1 {
+				for _, cl := range got {
+					if cl != nil {
+						kept = append(kept, cl)
+					}
+				}
+				continue
+			}
+			closeTogether(got, o.N)
+			inf.massClose = true
+			if len(conns) == 0 && len(kept) == 0 {
+				// a quiescent point in the middle of the history
+				if v := waitQuiescent(where); v != nil {
+					return inf, v
+				}
+				inf.midQuiescent++
+			}
 		case "close":
 			if cc := conns[o.Conn]; cc != nil {
 				cc.c.Close()
@@ -300,7 +411,7 @@ func checkStats(c statCase) (inf statInfo, v *verdict) {
 		}
 	}
 	// quiescence
-	if c.EndStop && len(conns) > 0 {
+	if c.EndStop && len(conns)+len(kept) > 0 {
 		inf.stopWithOpen = true
 	}
 	if c.EndStop {
@@ -309,43 +420,17 @@ func checkStats(c statCase) (inf statInfo, v *verdict) {
 			return inf, &verdict{"stop-never-returns", "Stop did not return within 20s (C09's subject)"}
 		}
 	}
-	for _, cc := range conns {
-		cc.c.Close()
-	}
-	type eq struct{ name, a, b, c string }
-	checkAll := func() string {
-		if x := gauge(svc, "downstream.cx_active"); x != 0 {
-			return fmt.Sprintf("downstream.cx_active = %d at quiescence", x)
+	if len(kept) > 0 {
+		// everything that is still open ends at the same instant
+		for _, cc := range conns {
+			kept = append(kept, cc.cl)
 		}
-		if a, b := counter(svc, "downstream.cx_total"), counter(svc, "downstream.cx_destroy_total"); a != b {
-			return fmt.Sprintf("downstream.cx_total = %d but cx_destroy_total = %d", a, b)
+		closeTogether(kept, len(kept))
+		inf.massClose = true
+	} else {
+		for _, cc := range conns {
+			cc.c.Close()
 		}
-		if c.Kind == "tcp" {
-			if x := gauge(svc, "upstream.cx_active"); x != 0 {
-				return fmt.Sprintf("upstream.cx_active = %d at quiescence", x)
-			}
-			if a, b := counter(svc, "upstream.cx_total"), counter(svc, "upstream.cx_destroy_total"); a != b {
-				return fmt.Sprintf("upstream.cx_total = %d but cx_destroy_total = %d", a, b)
-			}
-		}
-		for _, side := range []string{"downstream", "upstream"} {
-			t, s, f := counter(svc, side+".rq_total"), counter(svc, side+".rq_success_total"), counter(svc, side+".rq_failure_total")
-			if t != s+f {
-				return fmt.Sprintf("%s.rq_total = %d but success %d + failure %d = %d", side, t, s, f, s+f)
-			}
-		}
-		if c.Kind == "redis" {
-			for _, cmd := range []string{"get", "set", "mget", "mset", "del", "incr", "ping", "lpush", "scan", "eval"} {
-				t, s, e := counter(svc, "redis."+cmd+".total"), counter(svc, "redis."+cmd+".success"), counter(svc, "redis."+cmd+".error")
-				if t != s+e {
-					return fmt.Sprintf("redis.%s.total = %d but success %d + error %d", cmd, t, s, e)
-				}
-			}
-		}
-		if got := counter(svc, "downstream.cx_restricted"); got < rejectedForSure || got > rejected {
-			return fmt.Sprintf("downstream.cx_restricted = %d but %d connections were opened while the limit was reached and %d in all were closed without service", got, rejectedForSure, rejected)
-		}
-		return ""
 	}
 	deadline := time.Now().Add(5 * time.Second)
 	var msg string
@@ -369,6 +454,33 @@ func checkStats(c statCase) (inf statInfo, v *verdict) {
 	return inf, nil
 }
 
+// closeTogether closes the given client connections at the same instant, one goroutine each behind a barrier; every third one
+// with a reset instead of a FIN.
+func closeTogether(cls []*sim.Client, salt int) {
+	start := make(chan struct{})
+	var wg sync.WaitGroup
+	for k, cl := range cls {
+		if cl == nil {
+			continue
+		}
+		wg.Add(1)
+		go func(k int, cl *sim.Client) {
+			defer wg.Done()
+			<-start
+			if (k+salt)%3 == 0 {
+				cl.Close() // linger 0: RST
+				return
+			}
+			if tc, ok := cl.C.(*net.TCPConn); ok {
+				tc.SetLinger(-1)
+			}
+			cl.C.Close()
+		}(k, cl)
+	}
+	close(start)
+	wg.Wait()
+}
+
 func genStats(t *rapid.T) statCase {
 	c := statCase{Kind: rapid.SampledFrom([]string{"redis", "redis", "tcp"}).Draw(t, "kind"), Masters: rapid.IntRange(1, 3).Draw(t, "masters"),
 		Limit: rapid.SampledFrom([]int{0, 0, 1, 2, 3}).Draw(t, "limit"), EndStop: rapid.Bool().Draw(t, "endstop")}
@@ -376,7 +488,15 @@ func genStats(t *rapid.T) statCase {
 	n := rapid.IntRange(2, 20).Draw(t, "n")
 	for i := 0; i < n; i++ {
 		o := sop{Conn: rapid.IntRange(0, 4).Draw(t, "conn")}
-		switch x := rapid.IntRange(0, 15).Draw(t, "op"); {
+		switch x := rapid.IntRange(0, 17).Draw(t, "op"); {
+		case x >= 16:
+			o.Op, o.N = "mass", rapid.IntRange(0, 89).Draw(t, "massn")
+			if o.N%2 == 0 {
+				// a few rounds of open-together / close-together in a row
+				for k, m := 0, rapid.IntRange(0, 5).Draw(t, "rounds"); k < m; k++ {
+					c.Ops = append(c.Ops, sop{Op: "mass", N: 2 * rapid.IntRange(0, 44).Draw(t, "roundn")})
+				}
+			}
 		case x <= 3:
 			o.Op = "open"
 		case x == 4:
@@ -421,6 +541,10 @@ func genStats(t *rapid.T) statCase {
 		}
 		c.Ops = append(c.Ops, o)
 	}
+	if c.Limit == 0 && rapid.IntRange(0, 2).Draw(t, "endmass") == 0 {
+		// the history ends with many connections going away at once (or with Stop while they are open)
+		c.Ops = append(c.Ops, sop{Op: "mass", N: 2*rapid.IntRange(0, 44).Draw(t, "endmassn") + 1})
+	}
 	return c
 }
 
@@ -433,10 +557,10 @@ func TestStats(t *testing.T) {
 		if v != nil {
 			vh.Fail(t, vh.Failure{Property: prop, Part: "stats", Signature: v.sig, Message: v.msg, Case: c})
 		}
-		nt := inf.redirected || inf.backendFailure || inf.rejected || inf.stopWithOpen || inf.clientGone
+		nt := inf.redirected || inf.backendFailure || inf.rejected || inf.stopWithOpen || inf.clientGone || inf.massClose
 		vh.Rec().Case("stats", nt, vh.JSON(c))
 		for name, b := range map[string]bool{"redirection": inf.redirected, "backend_failure": inf.backendFailure, "limit_rejection": inf.rejected, "stop_with_open_connections": inf.stopWithOpen,
-			"client_gone_while_the_proxy_writes_replies": inf.clientGone} {
+			"client_gone_while_the_proxy_writes_replies": inf.clientGone, "many_connections_ending_at_the_same_instant": inf.massClose, "quiescent_point_inside_the_history": inf.midQuiescent > 0} {
 			if b {
 				vh.Rec().Class("stats", name)
 			}
